@@ -4,6 +4,15 @@
   "stub_note": "_dispatch_source_refs_finalize_unregistration (own contract: h_finalize_unregistration), _dispatch_lane_activate (h_lane_activate), _dispatch_queue_compute_priority_and_wlh, _dispatch_source_install: logged; the event handler slot holds the harness continuation or nothing" }
 VERIF*/
 #ifdef VERIF_PRE
+#ifdef H_RACING_CANCEL
+/* variant h_source_activate_racing_cancel: dispatch_source_cancel (and any other flag setter) may run on another thread at any point of the
+ * activation.  Guarantee of the activation on the flags word: it only ever ADDS the barrier bit to the value it atomically replaces - a
+ * load / modify / plain-store sequence erases a DSF_CANCELED that lands in between (the source then fires for ever, no cancel handler) */
+extern const volatile void *H_flags_p, *H_slot_p; extern unsigned long long H_slot_v;
+/* the handler slots cannot change any more (set-handler is refused / deferred once activation has begun) */
+#define __VERIF_RELY(p, v) ((const volatile void *)(p) != H_slot_p || (unsigned long long)(v) == H_slot_v)
+#define __VERIF_GUARANTEE(p, ov, nv, mo) ((const volatile void *)(p) != H_flags_p || ((((ov) ^ (nv)) & ~0x00080000ull) == 0 && ((nv) & 0x00080000ull) != 0))
+#endif
 #else
 #include "contracts/C15/source_common.h"
 enum { K_FINALIZE = 150, K_LANE_ACTIVATE, K_INSTALL };
@@ -13,37 +22,53 @@ void _dispatch_lane_activate(dispatch_lane_class_t dq, bool *allow_resume) { (vo
 dispatch_priority_t _dispatch_queue_compute_priority_and_wlh(dispatch_queue_class_t dq, dispatch_wlh_t *wlh_out) { (void)dq; *wlh_out = DISPATCH_WLH_ANON; return H_pri; }
 static void _dispatch_source_install(dispatch_source_t ds, dispatch_wlh_t wlh, dispatch_priority_t pri) { (void)wlh; __verif_event(K_INSTALL, 0, ds, pri, 0); }
 void _dispatch_bug_deprecated(const char *msg) { (void)msg; }
-uint32_t H_flags0; uintptr_t H_hflags0;
+uint32_t H_flags0; uintptr_t H_hflags0; const volatile void *H_flags_p, *H_slot_p; unsigned long long H_slot_v;
 #define CANCELED0 ((H_flags0 & DSF_CANCELED) != 0)
+#ifdef H_RACING_CANCEL
+#define FLAGS_AS_STORED 1
+#else
+#define FLAGS_AS_STORED (H_ds.dq_atomic_flags == H_flags0)
+#endif
 VERIF_CONTRACT_VOID(_dispatch_source_activate, (dispatch_source_t ds, bool *allow_resume),
-  REQ(ds == &H_ds && __verif_n == 0 && H_ds.ds_is_installed == H_installed0 && H_ds.dq_atomic_flags == H_flags0 && H_dr.du_is_direct == H_direct && H_dr.du_is_timer == H_timer && H_handler.dc_flags == H_hflags0 && H_dr.ds_handler[DS_EVENT_HANDLER] == (H_has_handler ? &H_handler : 0))
+  REQ(ds == &H_ds && __verif_n == 0 && H_ds.ds_is_installed == H_installed0 && FLAGS_AS_STORED && H_dr.du_is_direct == H_direct && H_dr.du_is_timer == H_timer && H_handler.dc_flags == H_hflags0 && H_dr.ds_handler[DS_EVENT_HANDLER] == (H_has_handler ? &H_handler : 0))
   ASG(VERIF_GHOST, __CPROVER_object_whole(&H_ds), __CPROVER_object_whole(&H_handler), H_installed_at_finalize)
   ENS(log_bounded, __verif_n >= 1 && __verif_n <= 3)
   /* a source cancelled before it was ever activated is never registered: it is marked installed FIRST (so that no later invoke
    * registers it with the kernel), then taken straight to the deleted state */
   ENS(source_cancelled_before_activation_is_marked_installed_then_finalized_and_never_registered, VIMPL(LOGK(0) == K_FINALIZE,
         __verif_n == 1 && H_installed_at_finalize && H_ds.ds_is_installed))
+#ifndef H_RACING_CANCEL
   ENS(the_cancelled_shortcut_is_taken_iff_the_source_was_cancelled, (LOGK(0) == K_FINALIZE) == CANCELED0)
   /* normal activation: the lane part runs (role / priority from the target), then direct and timer sources are installed once */
   ENS(normal_activation_runs_the_lane_activation_before_installing, VIMPL(!CANCELED0, LOGK(LAST) == K_LANE_ACTIVATE || (LOGK(LAST) == K_INSTALL && __verif_n >= 2 && LOGK(LAST - 1) == K_LANE_ACTIVATE)))
   /* C04: a source (dispatch_after, timers, ...) whose event handler is a BARRIER item is a barrier on its target queue from activation on, whoever
    * stored the handler (dispatch_after stores it directly, without going through the set-handler path) */
   ENS(a_source_with_a_barrier_event_handler_is_marked_as_a_barrier_on_its_target, VIMPL(!CANCELED0 && H_has_handler && (H_hflags0 & DC_FLAG_BARRIER), (H_ds.dq_atomic_flags & DQF_BARRIER_BIT) != 0))
+#else
+  ENS(a_source_with_a_barrier_event_handler_is_marked_as_a_barrier_by_an_atomic_or_that_keeps_every_other_flag, VIMPL(LOGK(0) != K_FINALIZE && H_has_handler && (H_hflags0 & DC_FLAG_BARRIER),
+        __verif_n >= 2 && IS_COMMIT(0, H_flags_p) && (LOGB(0) & DQF_BARRIER_BIT) != 0))
+#endif
   ENS(installed_at_most_once_and_only_direct_or_timer_sources, VIMPL(LOGK(LAST) == K_INSTALL, (H_direct || H_timer) && !H_installed0 && H_pri != 0 && LOGA(LAST) == H_pri))
 )
 void harness(void)
 {
 	h_setup_source(); uint32_t tid = ND(uint32_t); __CPROVER_assume(VALID_TID(tid)); __dispatch_tsd.tid = (pid_t)tid;
 	H_installed0 = ND_BOOL(); H_direct = ND_BOOL(); H_timer = ND_BOOL(); H_has_handler = ND_BOOL(); H_pri = ND(dispatch_priority_t);
-	H_flags0 = ND(uint32_t); H_ds.dq_atomic_flags = H_flags0;
+	H_flags0 = ND(uint32_t); H_ds.dq_atomic_flags = H_flags0; H_flags_p = &H_ds.dq_atomic_flags;
 	H_ds.ds_is_installed = H_installed0; H_dr.du_is_direct = H_direct; H_dr.du_is_timer = H_timer;
 	H_dr.ds_handler[DS_EVENT_HANDLER] = H_has_handler ? &H_handler : 0; H_hflags0 = ND(uintptr_t) & 0xfff; H_handler.dc_flags = H_hflags0; /* (shares storage with do_vtable: a value <= 0xfff is a continuation) */ H_handler.dc_priority = ND(pthread_priority_t);
+	H_slot_p = &H_dr.ds_handler[DS_EVENT_HANDLER]; H_slot_v = (unsigned long long)(uintptr_t)(H_has_handler ? &H_handler : 0); __verif_ptrloc = H_slot_p; __verif_ptrobj = &H_handler;
 	bool ar = 1;
 	_dispatch_source_activate(&H_ds, &ar);
 	VERIF_POST_VOID(_dispatch_source_activate, &H_ds, &ar);
+#ifndef H_RACING_CANCEL
 	VERIF_REACH(cancelled_shortcut, LOGK(0) == K_FINALIZE);
 	VERIF_REACH(installed, LOGK(LAST) == K_INSTALL);
 	VERIF_REACH(barrier_handler_marks_the_source, !CANCELED0 && H_has_handler && (H_hflags0 & DC_FLAG_BARRIER) && (H_ds.dq_atomic_flags & DQF_BARRIER_BIT) && !(H_flags0 & DQF_BARRIER_BIT));
+#else
+	VERIF_REACH(cancelled_shortcut, LOGK(0) == K_FINALIZE);
+	VERIF_REACH(barrier_bit_added, __verif_n >= 1 && IS_COMMIT(0, H_flags_p));
+#endif
 	VERIF_CANARY();
 }
 #endif
